@@ -495,6 +495,8 @@ class Engine:
             return self.module_consts[n]
         if n in self.contracts:
             return VConc(n)
+        if n in self.models and self.models[n] is not None:
+            return VConc(n)
         if n in self.classes():
             return VConc("class:" + n)
         if any(isinstance(f_, ast.FunctionDef) and f_.name == n for f_ in self.tree.body):
@@ -634,6 +636,14 @@ class Engine:
         if isinstance(op, (ast.In, ast.NotIn)):
             t = self.contains(b, a, st, node)
             return VBool(t if isinstance(op, ast.In) else z3.Not(t))
+        if isinstance(a, VRef) and isinstance(b, VRef) and isinstance(st.heap[a.addr], H2D) and isinstance(st.heap[b.addr], H2D):
+            oa, ob = st.heap[a.addr], st.heap[b.addr]
+            ga, gb = oa.get, ob.get
+            self.oblige(st, "2-D comparison: same number of columns", oa.cols == ob.cols, "safety", node)
+            if z3.is_int_value(ob.rows) and ob.rows.as_long() == 1:
+                return st.alloc(H2D(oa.rows, oa.cols, lambda r, c: self.compare(op, ga(r, c), gb(z3.IntVal(0), c), st, node), etype=T.bool))
+            self.oblige(st, "2-D comparison: same number of rows", oa.rows == ob.rows, "safety", node)
+            return st.alloc(H2D(oa.rows, oa.cols, lambda r, c: self.compare(op, ga(r, c), gb(r, c), st, node), etype=T.bool))
         # element-wise on numpy arrays
         if (isinstance(a, VRef) and isinstance(st.heap[a.addr], HSeq) and st.heap[a.addr].numpy) or \
            (isinstance(b, VRef) and isinstance(st.heap[b.addr], HSeq) and st.heap[b.addr].numpy):
@@ -754,6 +764,8 @@ class Engine:
             return v.t
         if isinstance(v, VStr):
             return self.label_of(v.s)
+        if isinstance(v, VFn):
+            return v.t
         raise Unsupported("dict key %r" % (v,))
 
     def ev_BinOp(self, node, st):
@@ -941,12 +953,20 @@ class Engine:
     def subscript(self, base, sl, st, node):
         if isinstance(base, (VLabel, VStr)) and isinstance(sl, ast.Slice):
             return self.slice_of(base, sl, st, node)
+        if isinstance(base, VFn) and not isinstance(sl, ast.Slice):
+            idx = self.ev(sl, st)
+            if isinstance(idx, (VInt, VBool)):
+                return VFn(z3.Function("opaque.item", Fn, z3.IntSort(), Fn)(base.t, self.as_int(idx)))
         if isinstance(base, VMaybeNone):
             self.oblige(st, "subscripted value is not None", z3.Not(base.isnone), "safety", node)
             base = base.val
         if isinstance(base, VNone):
             self.oblige(st, "subscripted value is not None", z3.BoolVal(False), "safety", node)
             raise PathEnd()
+        if isinstance(base, VFn) and not isinstance(sl, ast.Slice):
+            idx = self.ev(sl, st)
+            if isinstance(idx, (VInt, VBool)):
+                return VFn(z3.Function("opaque.item", Fn, z3.IntSort(), Fn)(base.t, self.as_int(idx)))
         if isinstance(sl, ast.Slice):
             return self.slice_of(base, sl, st, node)
         if isinstance(base, VTuple):
@@ -1367,6 +1387,8 @@ class Engine:
             if isinstance(sl, ast.Tuple):
                 return self.models["store2d"](self, st, base, sl, v, node)
             idx = self.ev(sl, st)
+            if isinstance(idx, VTuple) and len(idx.items) == 1 and self.is_seq(idx.items[0], st):
+                idx = idx.items[0]              # a[(indices,)] = v, as produced by np.where(mask)
             if self.is_seq(idx, st):
                 return self.models["store_mask"](self, st, base, idx, v, node)
             it = self.as_int(idx)
@@ -1749,6 +1771,8 @@ class Engine:
             raise Unsupported("while/else")
         ordn = self.loop_ordinal(node)
         spec = self.cur.loops.get(ordn) if self.cur else None
+        if spec is None and self.cur is not None and getattr(self.cur, "loop_select", None) is not None:
+            spec = self.cur.loop_select(node)
         if spec is None:
             raise Unsupported("while loop #%s at line %d has no invariant in the sidecar" % (ordn, node.lineno))
         for nm, c in spec.invariant(Spec(self, st), st):
